@@ -276,24 +276,32 @@ void debug_printdec_double_prec(double a, int prec)
     if (a < 0)
         a = -a;
 
-    uint64_t n = (uint64_t)a;
+    /* prec fraction digits, rounded to nearest; 10^18 still fits uint64_t */
+    if (prec < 0)
+        prec = 0;
+    if (prec > 18)
+        prec = 18;
 
-    debug_printdec_uint64(n);
-    debug_putchar('.');
-
-    double o = a - n;
-
+    uint64_t scale = 1;
     for (int _iteration = 0; _iteration < prec; ++_iteration)
-    {
-        o *= 10;
+        scale *= 10;
 
-        if ((int)o == 0)
-            debug_putchar('0');
+    uint64_t n = (uint64_t)a;
+    uint64_t frac = (uint64_t)((a - (double)n) * (double)scale + 0.5);
+    if (frac >= scale)
+    {
+        /* the fraction rounded up to one: carry into the integer part */
+        frac -= scale;
+        ++n;
     }
 
-    o += 0.5;
-
-    debug_printdec_signed_long_long((long long)o);
+    debug_printdec_uint64(n);
+    if (prec > 0)
+    {
+        debug_putchar('.');
+        for (scale /= 10; scale; scale /= 10)
+            debug_putchar((char)('0' + (frac / scale) % 10));
+    }
 }
 
 void debug_printhex_ptr(const void *v)
